@@ -15,10 +15,10 @@ import (
 
 // the four operator pairs of the statement of C04: (positive, negated)
 var matchPairs = [][2]string{
-	{"MatchEqual", "MatchNotEqual"},       // `!=` … negation of `==`
-	{"MatchIn", "MatchNotIn"},             // `not in`/`not contains` … of `in`/`contains`
-	{"MatchIsEmpty", "MatchIsNotEmpty"},   // `is not empty` … of `is empty`
-	{"MatchMatches", "MatchNotMatches"},   // `not matches` … of `matches`
+	{"MatchEqual", "MatchNotEqual"},     // `!=` … negation of `==`
+	{"MatchIn", "MatchNotIn"},           // `not in`/`not contains` … of `in`/`contains`
+	{"MatchIsEmpty", "MatchIsNotEmpty"}, // `is not empty` … of `is empty`
+	{"MatchMatches", "MatchNotMatches"}, // `not matches` … of `matches`
 }
 
 // the absent-key table of the statement of C05
@@ -91,10 +91,10 @@ func checkMatchDispatch(r *Run, prog *Program, a *Anchors, pfx string) {
 		scen = append(scen, matchScenario{"present,matcher=" + o.String(), false, true, o})
 	}
 	type armInfo struct {
-		callee  string
-		args    string
-		preSig  string
-		ok      bool
+		callee string
+		args   string
+		preSig string
+		ok     bool
 	}
 	arms := map[string]map[string]*armInfo{} // const -> scenario -> info
 	for _, c := range consts {
